@@ -219,6 +219,13 @@ class Program:
             return float(HASHv(t[6:-2]))
         if t.startswith('STR("') and t.endswith('")'):
             return float(STRv(t[5:-2]))
+        en = KIND_ENUM.get(kind)
+        if en:
+            # an operand position that takes a logic type / slot type / batch method: the enumeration name wins over a label or
+            # define of the same spelling (the game parses the enumeration when the line is loaded, names are looked up later)
+            d = bare_names().get(t)
+            if d and en in d:
+                return float(d[en])
         if t in self.labels:
             return float(self.labels[t])
         if t in self.defines:
